@@ -179,6 +179,13 @@ func (o *secOracle) fail(kind, sig, format string, args ...any) {
 	o.s.Fail(o.prop, kind, sig, format, args...)
 }
 
+// blame changes the property later failures of this oracle are attributed to.
+func (o *secOracle) blame(prop string) {
+	o.mu.Lock()
+	o.prop = prop
+	o.mu.Unlock()
+}
+
 func (o *secOracle) token(channelID, tokenID uint32) *tokenKeys {
 	for i := len(o.tokens) - 1; i >= 0; i-- {
 		if o.tokens[i].tokenID == tokenID && (o.tokens[i].channelID == channelID || channelID == 0) {
@@ -203,6 +210,11 @@ func (o *secOracle) frame(dir string, fr []byte) {
 	if max := map[string]int{"c2s": o.MaxC2S, "s2c": o.MaxS2C}[dir]; max > 0 && len(fr) > max {
 		if o.SizeProp != "" {
 			o.prop = o.SizeProp
+		}
+		// a chunk larger than the receiver's buffer breaks C06 (negotiated
+		// limits) whatever else the scenario is about
+		if o.prop != "C06" && !o.failed {
+			o.s.Fail("C06", "oversized-chunk", dir+"-symmetric-buffers", "%s %s chunk of %d bytes exceeds the %d bytes the receiver advertised (policy %s mode %d; both sides announced the same buffer sizes)", dir, typ, len(fr), max, o.cfg.Policy, o.cfg.Mode)
 		}
 		o.fail("oversized-chunk", dir, "%s chunk of %d bytes exceeds the %d bytes the receiver advertised", dir, len(fr), max)
 		return
